@@ -48,6 +48,10 @@ func runC05(c *ctx) {
 		// bindings made outside any block live in the environment of one evaluation only
 		"[$prev, $prev := n]", "[$p1, $p1 := a, $p1]", "$top := n", "$exists($e1) ? \"leaked\" : ($e1 := 1)",
 		"[$count($acc), $acc := $append($acc, n)]", "$string($s1) & ($s1 := a)", "[$f1 ? $f1() : 0, $f1 := function(){n}]",
+		// a member of an object constructor binds a variable that the members after it read: the members are evaluated in
+		// the order of their keys' first appearance, every time (F35: they used to be evaluated in map order)
+		"{\"a\": $x := 1, \"b\": $x, \"c\": $x, \"d\": $x}", "[{\"a\": $y := n, \"b\": $y, \"c\": $exists($y)}, $y]",
+		"items{\"one\": $k1 := 1, \"two\": $k1, \"three\": $exists($k1), \"four\": $k1}", "{\"p\": $q1, \"q\": $q1 := a, \"r\": $q1}",
 		"a.$length()", "b.c.$pad(8, \"-\")", "n.$string()", "n.$round()", "a.$contains(\"y\")", "items.s.$uppercase()", "items.($string(id) & s)",
 	}
 	others := []string{"b.c.$substringBefore(\"q\")", "$pad(\"zz\", 5)", "\"other\".$substringAfter(\"t\")", "items.s.$length()", "$string(items[0])", "n.$power(2)", "\"k\" ~> $uppercase()"}
@@ -155,6 +159,33 @@ func runC05(c *ctx) {
 		{"$toMillis(v, p)", []string{"[Y]-[M01]-[D01]T[H01]:[m]:[s].[f001][Z01:01t]", "[Y]-[M01]-[D01]", "[D01]/[M01]/[Y]", "[Y]", "[h]:[m01] [P]"}, strVals},
 		{"$formatBase(v, p)", []string{"2", "16", "36", "10"}, numVals},
 		{"$pad($string(v), p, \"*\")", []string{"8", "-8", "3"}, numVals},
+	}
+	// the same picture under different decimal-format options (a cache keyed by the picture alone would mix them up)
+	var optVals []map[string]interface{}
+	for _, x := range []float64{-1234.5, 0.25, 1234.5, -0.5} {
+		for _, o := range []map[string]interface{}{{}, {"minus-sign": "~"}, {"percent": "pc"}, {"per-mille": "pm"}, {"minus-sign": "m", "percent": "pc"}, {"zero-digit": "0"}} {
+			optVals = append(optVals, map[string]interface{}{"v": x, "o": o})
+		}
+	}
+	hists = append(hists, argHist{"$formatNumber(v, p, o)", []string{"#,##0.00", "0%", "0pc", "#0.0‰", "0.0pm", "#0.###;(#0.###)"}, optVals})
+	// member evaluation order of object constructors (F35): repeated evaluation gives one outcome, and it is the model's
+	for _, prog := range []string{"{\"a\": $x := 1, \"b\": $x, \"c\": $x, \"d\": $x}", "{\"p\": $q1, \"q\": $q1 := a, \"r\": $q1, \"s\": $q1}",
+		"items{g: $seen, s: $seen := 1}", "items{\"one\": $k1 := 1, \"two\": $k1, \"three\": $exists($k1), \"four\": $k1, \"five\": $k1}",
+		"[{\"a\": $y := n, \"b\": $y, \"c\": $exists($y)}, $y]", "items{s: $exists($m1) ? \"later\" : ($m1 := \"first\")}"} {
+		d := fullDoc(r, false)
+		first := ""
+		for rep := 0; rep < 24; rep++ {
+			got := goEval(prog, d)
+			if rep == 0 {
+				first = got.outcome
+			} else if got.outcome != first {
+				c.disagree(Disagreement{Kind: "history-dependent-outcome", Prog: prog, Input: d, InputS: valueSexp(d),
+					History: []string{fmt.Sprintf("evaluation %d of the same program on the same input", rep+1)},
+					Go:      got.outcome, Model: "the first outcome of the same evaluation in this process: " + first})
+				break
+			}
+		}
+		c.diffEval(prog, d, "member-order")
 	}
 	for _, h := range hists {
 		for _, pic := range h.pics {
